@@ -2,6 +2,7 @@
 # background thorough sweep from a snapshot (vp run): builds the driver there and runs every claimed property
 export GOFLAGS=-mod=mod GOPROXY=off GOSUMDB=off GOTOOLCHAIN=local
 export VERIF_DIR=$PWD
+[ -n "$VP_RUN_REPO" ] && export VERIF_REPO=$VP_RUN_REPO
 (cd simgo && go build -o ../bin/simcheck ./cmd/simcheck) || exit 2
 rc=0
 for p in ${PROPS:-C06 C07 C08 C14 C19 C11 C12 C02 C03 C05 C15 C18 C20}; do
